@@ -234,6 +234,86 @@ def _reuse(record, root):
 # layer 3: consistency with SCF at P = D (real SEQM)
 
 
+def _child_moved(rec, sp_np, xyz_np):
+    """History: SCF at R0 - the atoms move (as an MD step moves them, in place) - XL evaluation at R1 on the SAME
+    molecule / driver objects with the auxiliary density set to the converged density of R1.  The XL energy and forces
+    must be the SCF ones of R1 (fresh objects).  Options: Hamiltonian parameters supplied by a geometry-dependent
+    callable (documented `learned_parameters` workflow), a finite pair cutoff that one atom pair crosses between R0 and R1."""
+    import numpy as np
+    import torch
+
+    from seqm.basics import Pack_Parameters
+    from seqm.ElectronicStructure import Electronic_Structure
+    from seqm.Molecule import Molecule
+    from seqm.seqm_functions.constants import Constants
+
+    mv = rec["moved"]
+    species = torch.as_tensor(sp_np, dtype=torch.int64)
+    R0 = torch.as_tensor(xyz_np)
+    g = torch.Generator().manual_seed(rec["rotate"] % (1 << 31))
+    real = (species > 0).unsqueeze(-1)
+    R1 = R0 + mv["sigma"] * torch.randn(R0.shape, generator=g) * real
+    elements = sorted({0} | set(int(z) for z in sp_np.reshape(-1)))
+    base = {"method": rec["method"], "scf_eps": 1e-11, "scf_converger": [1], "elements": elements}
+    if mv.get("cutoff"):
+        # the real atom pair (of molecule 0) whose distance changes most between R0 and R1 crosses the cutoff
+        d0 = torch.cdist(R0[0], R0[0]).numpy()
+        d1 = torch.cdist(R1[0], R1[0]).numpy()
+        nat = int((sp_np[0] > 0).sum())
+        cand = [(abs(d1[a, b] - d0[a, b]), a, b) for a in range(nat) for b in range(a + 1, nat) if min(d0[a, b], d1[a, b]) > 1.45]
+        if cand:
+            _, a, b = max(cand)
+            base["pair_outer_cutoff"] = float(0.5 * (d0[a, b] + d1[a, b]))
+    learned = ["U_ss", "U_pp", "beta_s", "beta_p"] if mv.get("learned") else []
+    table_src = Pack_Parameters({"method": rec["method"], "elements": elements})
+
+    def generator(sp_, xyz_):
+        # tabulated value + a smooth function of the atomic environment, one value per real atom (detached)
+        with torch.no_grad():
+            flat = sp_.reshape(-1)
+            rl = flat > 0
+            table = table_src(flat[rl], learned_params={})[0]
+            n = sp_.shape[1]
+            d = torch.cdist(xyz_, xyz_)
+            pair = (sp_ > 0).unsqueeze(1) & (sp_ > 0).unsqueeze(2) & ~torch.eye(n, dtype=torch.bool).unsqueeze(0)
+            env = (torch.exp(-((d / 1.2) ** 2)) * pair).sum(dim=2).reshape(-1)[rl]
+            return {"U_ss": table["U_ss"] + 1.5 * env, "U_pp": table["U_pp"] + 1.0 * env, "beta_s": table["beta_s"] - 1.0 * env, "beta_p": table["beta_p"] - 0.8 * env}
+
+    def settings():
+        sp = dict(base, elements=list(elements))
+        if learned:
+            sp["learned"] = list(learned)
+        return sp
+
+    lp = generator if learned else {}
+
+    def fresh(R):
+        sp = settings()
+        m = Molecule(Constants(), sp, R.clone(), species.clone(), learned_parameters=lp)
+        m.verbose = False
+        e = Electronic_Structure(sp)
+        e(m, learned_parameters=lp)
+        return m, e
+
+    ref, _ = fresh(R1)  # SCF at R1, new objects
+    mol, es = fresh(R0)  # SCF at R0 ...
+    with torch.no_grad():
+        mol.coordinates.add_(R1 - R0)  # ... the atoms move ...
+    xl = {"k": rec["k"]}
+    if rec["rank"]:
+        xl.update(max_rank=rec["rank"], err_threshold=0.0, T_el=rec["T_el"])
+    es(mol, learned_parameters=lp, P0=ref.dm.detach().clone(), dm_prop="XL-BOMD", xl_bomd_params=xl)  # ... XL evaluation at R1
+    return {
+        "solo": None,
+        "dE": float((mol.Etot - ref.Etot).abs().max()),
+        "dE_with_entropy": 0.0,
+        "dF": float((mol.force - ref.force).abs().max()),
+        "dD": float((mol.dm - ref.dm).abs().max()),
+        "Fmax": float(ref.force.abs().max()),
+        "cutoff": base.get("pair_outer_cutoff"),
+    }
+
+
 def _child_consistency(rec):
     import torch
 
@@ -245,6 +325,9 @@ def _child_consistency(rec):
     torch.set_default_dtype(torch.float64)
     cfg = {"batch": rec["batch"], "rotate": rec["rotate"], "distort": 0.05, "geom_seed": rec["rotate"]}
     sp_np, xyz_np = mdsim.build_batch(cfg)
+    mv = rec.get("moved")
+    if mv:
+        return _child_moved(rec, sp_np, xyz_np)
     sp = {"method": rec["method"], "scf_eps": 1e-11, "scf_converger": [1]}
     mol = Molecule(Constants(), sp, torch.as_tensor(xyz_np), torch.as_tensor(sp_np, dtype=torch.int64))
     mol.verbose = False
@@ -290,6 +373,14 @@ def _consistency(record, root):
         return core.Result.make(record, failures, stats, sig=None, nontrivial=False)
     r = payload["ok"]
     tag = f"{record['batch']} {record['method']} k={record['k']} rank={record['rank']} T_el={record.get('T_el')}"
+    if record.get("moved"):
+        mvd = record["moved"]
+        tag += f" history=[SCF at R0, atoms moved by ~{mvd['sigma']} A, XL at R1 on the same objects] learned-parameter callable={bool(mvd.get('learned'))} pair cutoff={r.get('cutoff')}"
+        stats["probes"]["moved_history_cases"] = 1
+        if mvd.get("learned"):
+            stats["probes"]["moved_with_geometry_dependent_parameters"] = 1
+        if r.get("cutoff"):
+            stats["probes"]["moved_with_pair_crossing_the_cutoff"] = 1
     # above 1500 K the thermal occupations legitimately move the XL energy away from the zero-temperature SCF
     # one (measured 1e-6 eV at 5000 K, 1e-3 eV at 8000 K): there only the batch-independence form is decided
     cold = not record.get("T_el") or record["T_el"] <= 1500
@@ -450,6 +541,23 @@ class C09(core.Check):
                     "rank": rank,
                     "T_el": rng.choice([300, 1500, 1500, 5000, 8000]) if rank else None,
                     "rotate": rng.randrange(1 << 30),
+                }
+            )
+            i += 1
+        rm = core.rng_for(seed, PROP, "moved")
+        for _ in range(16 if tier == "quick" else 160):
+            rank = rm.choice([0, 0, 1, 2, 3])
+            recs.append(
+                {
+                    "i": i,
+                    "layer": "consistency",
+                    "batch": rm.choice([["h2o"], ["nh3"], ["h2co"], ["ch4", "h2o"], ["c2h4"], ["h2co", "h2o"]]),
+                    "method": rm.choice(["AM1", "PM3", "MNDO"]),
+                    "k": rm.randint(3, 9),
+                    "rank": rank,
+                    "T_el": rm.choice([300, 1500]) if rank else None,
+                    "rotate": rm.randrange(1 << 30),
+                    "moved": {"sigma": rm.choice([0.01, 0.03]), "learned": rm.random() < 0.5, "cutoff": rm.random() < 0.4},
                 }
             )
             i += 1
